@@ -191,9 +191,13 @@ structure Spec (δ : Type) where
   entries : List (Entry δ)
   unnamed : Nat
 
+/-- the tags one option contributes -/
+def optTags : Opt → List String
+  | .withTags ts => ts
+  | _ => []
+
 /-- the tags given on a call: `*` first, then every WithTags in order -/
-def callTags (opts : List Opt) : List String :=
-  wildcardTag :: opts.flatMap (fun o => match o with | .withTags ts => ts | _ => [])
+def callTags (opts : List Opt) : List String := wildcardTag :: opts.flatMap optTags
 
 /-- the re-add policy chosen on a call: the last of MergeTags / MustCreate wins -/
 def policy : List Opt → MergeFn
